@@ -249,7 +249,23 @@ fn history_case(ctx: &mut Ctx, rng: &mut Rng, idx: u64) {
                 let mut newvals = vec![];
                 for i in ids.iter() {
                     let q = &model.quotes[*i];
-                    let nv = if rng.chance(0.2) { gen_quote_val(rng, 1.0, 100 + *i) } else { QuoteVal::F(gen_rate(rng)) };
+                    // mostly a new rate; sometimes the SAME value with other derivative content (plain <-> own
+                    // variables, other variables / coefficients), or an identical re-statement of the quote
+                    let nv = match rng.below(20) {
+                        0..=3 => gen_quote_val(rng, 1.0, 100 + *i),
+                        4 | 5 => {
+                            ctx.class("update:same-value-other-derivative-content");
+                            match &q.val {
+                                QuoteVal::F(v) => super::fxgen::gen_quote_val_at(rng, 1.0, 200 + step * 16 + *i, *v),
+                                other => if rng.bool() { QuoteVal::F(other.value()) } else { super::fxgen::gen_quote_val_at(rng, 1.0, 200 + step * 16 + *i, other.value()) },
+                            }
+                        }
+                        6 => {
+                            ctx.class("update:identical-quote");
+                            q.val.clone()
+                        }
+                        _ => QuoteVal::F(gen_rate(rng)),
+                    };
                     ups.push(FXRate::try_new(&model.ccys[q.lhs], &model.ccys[q.rhs], nv.number(), ndt_opt(q.settlement)).unwrap());
                     newvals.push((*i, nv));
                 }
@@ -427,6 +443,8 @@ impl Prop for C10 {
                 v.push(format!("op:set_ad_order:{}->{}", a, b));
             }
         }
+        v.push("update:same-value-other-derivative-content".to_string());
+        v.push("update:identical-quote".to_string());
         v
     }
     fn min_evaluations(&self, tier: Tier) -> u64 {
